@@ -736,6 +736,105 @@ def r07_4(ctx):
     ctx.floor("R07.4", 8)
 
 
+# ------------------------------------------------------------------------------------------------ R07.7
+def r07_7(ctx):
+    """Without a step-size hint the dependency tree is refined from statistics of the queries.  One call of
+    _create_dependency_tree(x) leaves about (t1 - t0) / (36 x) nodes behind, permanently, so x must be tied to the
+    *history* (the work the caller has already done), never to the length of one query: a single legal query of length
+    1e-9 must not cost 1e7 nodes and one of 1e-12 must not exhaust memory.  The repository's own constructor and
+    __call__ are driven abstractly (exact rationals, tree search and values mocked) through N ordinary queries followed
+    by one short query; every refinement request is recorded."""
+    rep, model = ctx.rep, ctx.model
+    rep.rule("R07.7", "statistics-driven refinement of the dependency tree is bounded by the query history: the refinement "
+                      "length is never below a quarter of the mean query length so far")
+    from ..interp import Interp, Intrinsic, Obj
+    from ..nf import Rat
+    from .. import nf
+    from . import brownian_kit as bk
+    from .c04 import eval_init
+    call = model.func(BI, "BrownianInterval.__call__")
+    rep.analysed(call)
+    F = Fraction
+    scenarios = []
+    for N in ((100, 150) if ctx.tier == "quick" else (100, 101, 150, 400)):
+        for eps in (F(1, 10 ** 6), F(1, 10 ** 9), F(1, 10 ** 12)):
+            scenarios.append((f"{N} queries of length 1/200, then one of length {float(eps):g}", [F(1, 200)] * N + [eps]))
+    scenarios.append(("101 queries of length 1e-6 (a genuinely fine solve)", [F(1, 10 ** 6)] * 101))
+    scenarios.append(("101 queries of length 1/200, then 120 of length 1e-9 (the mean halves only gradually)",
+                      [F(1, 200)] * 101 + [F(1, 10 ** 9)] * 120))
+    n_requests = 0
+    for label, lengths in scenarios:
+        r0 = eval_init(model)
+        me = r0["me"]
+        table = {("s", "T0"): Rat.const(0), ("s", "T1"): Rat.const(1)}
+        for k, v in list(me.attrs.items()):
+            if isinstance(v, Rat):
+                c = nf.substitute(v, table).const_value()
+                if c is not None:
+                    me.attrs[k] = c
+        if me.attrs.get("_dt") is not None or me.attrs.get("_halfway_tree"):
+            raise AnalysisError("constructor scenario without dt hint did not leave _dt None", where=astq.loc(call))
+        requests = []
+
+        class H(bk.BrownianHooks):
+            def on_call(self, interp, callee, args, kwargs, node, fi):
+                f2 = getattr(callee, "fi", None)
+                if f2 is not None and f2.name == "_create_dependency_tree" and not getattr(self, "_inside", False):
+                    requests.append(args[0] if args else kwargs.get("dt"))
+                    # the method itself runs (it updates the statistics it is driven by), on a top node collapsed to zero
+                    # length so that it has nothing to split: the tree is not materialised
+                    saved = me.attrs["_end"]
+                    me.attrs["_end"] = me.attrs["_start"]
+                    self._inside = True
+                    try:
+                        interp.call_function(f2, [me] + list(args), dict(kwargs))
+                    finally:
+                        self._inside = False
+                        me.attrs["_end"] = saved
+                    return None
+                return bk.BrownianHooks.on_call(self, interp, callee, args, kwargs, node, fi)
+        zero = Rat.const(0)
+        piece = Obj("piece", attrs={"_start": F(0), "_end": F(1),
+                                    "_increment_and_levy_area": Intrinsic("piece.value", lambda it, a, k, n, f: (zero, zero, None))})
+        piece.attrs["_loc"] = Intrinsic("_loc", lambda it, a, k, n, f: [piece])
+        me.attrs["_last_interval"] = piece
+        # the tree itself is not built: the top node stays a leaf whose search routine does nothing
+        me.attrs["_loc"] = Intrinsic("_loc", lambda it, a, k, n, f: [piece])
+        me.attrs["_midway"] = None
+        me.attrs["_round"] = bk.identity_round()
+        it = Interp(model, H())
+        t, total = F(0), F(0)
+        worst = None
+        for i, ln in enumerate(lengths):
+            ta = t if t + ln <= 1 else F(0)
+            t = ta + ln
+            total += ln
+            before = len(requests)
+            it.call_function(call, [me, ta, ta + ln], {})
+            for x in requests[before:]:
+                n_requests += 1
+                x = x if isinstance(x, Fraction) else (x.const_value() if isinstance(x, Rat) else None)
+                if x is None:
+                    raise AnalysisError("refinement length is not a number in a concrete scenario", where=astq.loc(call))
+                mean = total / (i + 1)
+                if x * 4 < mean and worst is None:
+                    worst = (i + 1, x, mean)
+        construct = f"{call.key}::R07.7::{label}"
+        if worst is None:
+            rep.ok("R07.7", astq.loc(call), construct, f"{len(requests)} refinement request(s), all >= mean query length / 4")
+        else:
+            i, x, mean = worst
+            rep.fail("R07.7", astq.loc(call), construct,
+                     f"{label}: query no. {i} asks for the dependency tree to be refined down to {float(x):g} while the mean "
+                     f"query length so far is {float(mean):g}: that single call leaves about {float(1 / (36 * x)):.3g} tree nodes "
+                     f"behind (permanent, not governed by cache_size); a shorter query makes it arbitrarily worse -- the call "
+                     f"does not return in any reasonable time or memory")
+    if n_requests == 0:
+        raise AnalysisError("no scenario triggered a statistics-driven refinement: the mechanism R07.7 is about vanished",
+                            where=astq.loc(call))
+    ctx.floor("R07.7", 4)
+
+
 # ------------------------------------------------------------------------------------------------ R07.5
 def _quantised(fi, expr, before):
     """Is `expr` a call of the quantiser (`._round(...)`) or a name whose last binding before `before` is one?"""
@@ -873,3 +972,4 @@ def run(ctx):
     ctx.guard(r07_4)
     ctx.guard(r07_5)
     ctx.guard(r07_6)
+    ctx.guard(r07_7)
